@@ -34,7 +34,8 @@ ASSUMPTIONS = ["hooks that raise are outside C10 (C03 covers them)", "virtual-ti
 
 
 def scenario(big: bool = False) -> Any:
-    hook = st.fixed_dictionaries({"async": st.sampled_from([False, True, True, "deferred"]), "stamp": st.booleans(), "inherited": st.sampled_from([False, False, True])})
+    hook = st.fixed_dictionaries({"async": st.sampled_from([False, True, True, "deferred", "future", "awaitable"]), "stamp": st.booleans(), "inherited": st.sampled_from([False, False, True]),
+                                  "names": st.sampled_from(["std", "std", "other"])})     # hook parameters named message/result/exception, or msg/res/*args
     mw = st.dictionaries(st.sampled_from(list(wh.HOOKS)), hook, max_size=6)
 
     def fin(d: Dict[str, Any]) -> Dict[str, Any]:
